@@ -49,6 +49,7 @@ TypeKey(ty) ==
     [] ty.k = "slice" -> "[]" \o TypeKey(ty.e)
     [] OTHER -> "?"
 
+MethodsOfKey(key) == {P.methods[i].name : i \in {j \in DOMAIN P.methods : TypeKey(P.methods[j].recv.t) = key}}
 FieldTy(tn, fn) == LET d == TypeDecl(tn) IN d.fields[CHOOSE i \in DOMAIN d.fields : d.fields[i].n = fn].t
 HasField(tn, fn) == IsDeclared(tn) /\ TypeDecl(tn).k = "struct" /\ \E i \in DOMAIN TypeDecl(tn).fields : TypeDecl(tn).fields[i].n = fn
 
@@ -263,7 +264,12 @@ Eval(e, env, hp) ==
     [] e.k = "assert" ->
          LET x == Eval(e.e, env, hp) IN
          IF IsBad(x) THEN x
-         ELSE IF IsIfaceTy(e.t) THEN VBad("assertion to interface type")
+         ELSE IF IsIfaceTy(e.t) THEN
+              \* assertion to an interface type: succeeds iff the dynamic type's method set covers the interface
+              (IF x.k = "nil" THEN VPanic("interface conversion")
+               ELSE IF e.t.n = "any" THEN x
+               ELSE IF {TypeDecl(e.t.n).methods[i].n : i \in DOMAIN TypeDecl(e.t.n).methods} \subseteq MethodsOfKey(DynKey(x)) THEN x
+               ELSE VPanic("interface conversion"))
          ELSE IF DynKey(x) = TypeKey(e.t) THEN x ELSE VPanic("interface conversion")
     [] e.k = "lit" ->
          LET tn == e.t.n IN
